@@ -282,6 +282,97 @@ func runC01(r *Run) {
 	} else {
 		r.Bad("R15", "anchor/(*app.Haqq).BeginBlocker", "", "not found")
 	}
+	r.Rule("R16", "DET.no-addresses-in-formatted-text: an error string of a failed call becomes the transaction's VmError, is marshalled into the DeliverTx response data and hashed into LastResultsHash; fmt prints a pointer nested inside a formatted struct (an unexported *big.Int field of a *vm.Contract, say) as its heap address, which differs between replicas. In consensus scope no %v / %+v formatting call (fmt.Errorf/Sprintf/Sprint*, errors.Wrapf) is handed a pointer to — or a value of — a struct type that has pointer, map, channel or function fields and no String/Error/Format method of its own")
+	{
+		risky := func(t types.Type) (string, bool) {
+			base := t
+			if p, ok := t.Underlying().(*types.Pointer); ok {
+				base = p.Elem()
+			}
+			st, ok := base.Underlying().(*types.Struct)
+			if !ok {
+				return "", false
+			}
+			for _, tt := range []types.Type{t, base, types.NewPointer(base)} {
+				ms := types.NewMethodSet(tt)
+				for _, m := range []string{"String", "Error", "Format", "GoString"} {
+					if ms.Lookup(nil, m) != nil {
+						return "", false
+					}
+				}
+				for i := 0; i < ms.Len(); i++ {
+					if n := ms.At(i).Obj().Name(); n == "String" || n == "Error" || n == "Format" {
+						return "", false
+					}
+				}
+			}
+			for i := 0; i < st.NumFields(); i++ {
+				switch st.Field(i).Type().Underlying().(type) {
+				case *types.Pointer, *types.Map, *types.Chan, *types.Signature:
+					return st.Field(i).Name(), true
+				}
+			}
+			return "", false
+		}
+		nFmt := 0
+		for _, fn := range sc.S.HaqqFuncs() {
+			if isTestSupport(P, fn) {
+				continue
+			}
+			idx := 0
+			eachCall(fn, func(ci CallInfo) {
+				switch ci.Name {
+				case "Errorf", "Sprintf", "Sprint", "Sprintln", "Wrapf", "Wrap":
+				default:
+					return
+				}
+				if !(strings.HasSuffix(ci.PkgPath, "fmt") || strings.HasSuffix(ci.PkgPath, "errors")) {
+					return
+				}
+				nFmt++
+				usesV := ci.Name == "Sprint" || ci.Name == "Sprintln"
+				for _, a := range ci.Instr.Common().Args {
+					if k, ok := a.(*ssa.Const); ok && k.Value != nil && (strings.Contains(k.Value.String(), "%v") || strings.Contains(k.Value.String(), "%+v") || strings.Contains(k.Value.String(), "%#v")) {
+						usesV = true
+					}
+				}
+				if !usesV {
+					return
+				}
+				args := ci.Instr.Common().Args
+				if len(args) == 0 {
+					return
+				}
+				// the elements of the variadic argument list: stores into the array behind the slice
+				var elems []ssa.Value
+				if sl, ok := args[len(args)-1].(*ssa.Slice); ok {
+					if al, ok := sl.X.(*ssa.Alloc); ok && al.Referrers() != nil {
+						for _, u := range *al.Referrers() {
+							if ia, ok := u.(*ssa.IndexAddr); ok && ia.Referrers() != nil {
+								for _, uu := range *ia.Referrers() {
+									if st, ok := uu.(*ssa.Store); ok {
+										elems = append(elems, st.Val)
+									}
+								}
+							}
+						}
+					}
+				}
+				anyOf(elems, func(v ssa.Value) bool {
+					mi, ok := v.(*ssa.MakeInterface)
+					if !ok {
+						return false
+					}
+					if f, bad := risky(mi.X.Type()); bad {
+						idx++
+						r.Bad("R16", fmt.Sprintf("%s#formats-a-struct-with-pointers-%d", fnID(fn), idx), P.Pos(instrPos(ci.Instr)), "a value of type "+mi.X.Type().String()+" (field "+f+" is a pointer/map/chan/func) is formatted with %v in consensus scope: fmt prints the nested pointer as a heap address, the text reaches the transaction result (VmError → response data → LastResultsHash) and two replicas report different results for the same transaction", sc.S.Chain(fn)...)
+					}
+					return false
+				})
+			})
+		}
+		r.Floor("R16", "formatting calls in consensus scope", nFmt, 50)
+	}
 	r.Rule("R13", "PATH.optional-recipient-dereferenced-under-guard: the tabled observer sites of R8 (the node-local evm.tracer selects the logger handed to the interpreter) are 'observers' only as long as they cannot fail: a panic in one of them is recovered per transaction by BaseApp, so only the node with that setting reports the transaction as failed. In consensus scope the result of a message's To() — nil for a contract creation — is dereferenced only over the non-nil edge of a comparison of To() with nil (the access-list tracer was built with *msg.To() unconditionally: every contract creation failed on nodes configured with it)")
 	{
 		nD := 0
@@ -1391,4 +1482,13 @@ func detLocalTime(r *Run, sc *Scopes, S []*ssa.Function) {
 	if bad == 0 {
 		r.OK("R11", "scope-S", "", fmt.Sprintf("%d local-zone time values constructed in consensus scope, none queried for calendar fields", n))
 	}
+}
+
+func anyOf(vs []ssa.Value, f func(ssa.Value) bool) bool {
+	for _, v := range vs {
+		if f(v) {
+			return true
+		}
+	}
+	return false
 }
